@@ -189,6 +189,7 @@ class Model:
             self.inlined += unroll_literal_loops(self.modules)
             from .normalise import canonical_getattr, canonical_loop_guards
             self.inlined += canonical_getattr(self.modules)
+            self.inlined += strip_fresh_write_only_state(self.modules)         # (again: counters written through setattr(self, 'name', ..) are visible only now)
             self.inlined += canonical_loop_guards(self.modules)
             from .normalise import simplify_bool_comparisons
             simplify_bool_comparisons(self.modules)
